@@ -468,6 +468,16 @@ Section FrameProofs.
     (answer o q, {| f_memo := (key_of q, answer o q) :: f_memo st; f_log := (f_log st ++ [q])%list |}).
   Proof. intros H. unfold RelCond.relh_frame. rewrite H. reflexivity. Qed.
 
+  (* raised / timed out: false, and that False is memoised like any other answer *)
+  Lemma raise_is_false o q : o q = None -> answer o q = false.
+  Proof. unfold answer. intros ->. reflexivity. Qed.
+  Lemma raise_memoised o q st : o q = None -> memo_get (key_of q) (f_memo st) = None ->
+    relh_frame true (Some o) q st =
+    (false, {| f_memo := (key_of q, false) :: f_memo st; f_log := (f_log st ++ [q])%list |}).
+  Proof. intros Ho Hm. rewrite (relh_miss _ _ _ Hm), (raise_is_false _ _ Ho). reflexivity. Qed.
+  Lemma nonbool_is_truthiness o q v : o q = Some v -> answer o q = py_truthy v.
+  Proof. unfold answer. intros ->. reflexivity. Qed.
+
   (* ---------- the invariant of a frame inside one decision ---------- *)
   Record frame_ok (o : oracle) (st : frame) : Prop := {
     fo_keys : forall k, In k (map fst (f_memo st)) <-> In k (map key_of (f_log st));
@@ -945,3 +955,91 @@ Qed.
 Theorem merged_ctx_lookup base u k : NoDup (map fst u) ->
   assoc k (dict_update base u) = match assoc k u with Some v => Some v | None => assoc k base end.
 Proof. intros H. rewrite assoc_dict_update, assoc_rev_nodup by assumption. reflexivity. Qed.
+
+(* =====================================================================================
+   Part 4: the statements of props/C13.v that bundle several of the lemmas above
+   ===================================================================================== *)
+Lemma frame_invariant ctx_hash o oblig strict policy req resolved :
+  frame_ok ctx_hash o frame0 /\
+  frame_ok ctx_hash o (snd (decide_rel ctx_hash (Some o) oblig strict policy req resolved)).
+Proof. split; [apply frame_ok_0|apply frame_ok_guard_eval; apply frame_ok_0]. Qed.
+
+Lemma no_relation_no_lookup env :
+  rel_prepare (VStr "") env = Ok None /\
+  (forall e, is_str e = false -> is_obj e = false -> rel_prepare e env = Ok None).
+Proof. split; [apply rel_prepare_empty|intros e; apply rel_prepare_other]. Qed.
+
+Lemma subject_default env :
+  (forall sid s, get_key "id" (get_key "subject" env) = sid -> is_null sid = false -> fmt sid = Ok s ->
+     canon_subject env VNull = Ok ("user:" ++ s)) /\
+  (get_key "id" (get_key "subject" env) = VNull -> canon_subject env VNull = Ok "user:").
+Proof. split; [intros sid s; apply subject_default_id|apply subject_default_no_id]. Qed.
+
+Lemma subject_override_both env ov :
+  is_null ov = false ->
+  (forall s, resolve ov env = Ok (VStr s) ->
+     canon_subject env ov = Ok (if has_colon s then s else "user:" ++ s)) /\
+  (forall v, resolve ov env = Ok v -> is_str v = false -> canon_subject env ov = canon_subject env VNull).
+Proof. intros H. split; [intros s; apply subject_override; exact H|intros v; apply subject_override_not_str; exact H]. Qed.
+
+Lemma resource_default env t :
+  fmt (res_type env) = Ok t ->
+  (forall rid s, get_key "id" (get_key "resource" env) = rid -> is_null rid = false -> fmt rid = Ok s ->
+     canon_resource env VNull = Ok (t ++ ":" ++ s)) /\
+  (get_key "id" (get_key "resource" env) = VNull -> canon_resource env VNull = Ok (t ++ ":")) /\
+  (py_truthy (get_key "type" (get_key "resource" env)) = false -> res_type env = VStr "object").
+Proof.
+  intros H. split; [intros rid s; apply resource_default_id; exact H|].
+  split; [apply resource_default_no_id; exact H|apply res_type_default].
+Qed.
+
+Lemma resource_override_both env ov t :
+  is_null ov = false -> fmt (res_type env) = Ok t ->
+  (forall s, resolve ov env = Ok (VStr s) ->
+     canon_resource env ov = Ok (if has_colon s then s else t ++ ":" ++ s)) /\
+  (forall v, resolve ov env = Ok v -> is_str v = false -> canon_resource env ov = canon_resource env VNull).
+Proof.
+  intros H Ht. split; [intros s Hs; apply resource_override; assumption|].
+  intros v; apply resource_override_not_str; exact H.
+Qed.
+
+Lemma fail_closed_handler ctx_hash :
+  (forall mo q st, relh_frame ctx_hash mo None q st = (false, st)) /\
+  (forall o q, o q = None -> answer o q = false) /\
+  (forall o q v, o q = Some v -> answer o q = py_truthy v) /\
+  (forall o q st, o q = None -> memo_get (key_of ctx_hash q) (f_memo st) = None ->
+     relh_frame ctx_hash true (Some o) q st =
+     (false, {| f_memo := (key_of ctx_hash q, false) :: f_memo st; f_log := (f_log st ++ [q])%list |})) /\
+  (forall o q st b st', frame_ok ctx_hash o st -> relh_frame ctx_hash true (Some o) q st = (b, st') ->
+     (b = true -> exists q', In q' (f_log st') /\ key_of ctx_hash q' = key_of ctx_hash q /\ affirmed o q') /\
+     (b = false -> exists q', In q' (f_log st') /\ key_of ctx_hash q' = key_of ctx_hash q /\ ~ affirmed o q')).
+Proof.
+  split; [intros; apply relh_none|]. split; [apply raise_is_false|].
+  split; [apply nonbool_is_truthiness|]. split; [apply raise_memoised|apply handler_true_affirmed].
+Qed.
+
+Lemma fail_closed_decision ctx_hash oblig strict policy req resolved :
+  decide_rel ctx_hash None oblig strict policy req resolved =
+    (fst (guard_eval unit (relh_pure (fun _ => false)) oblig strict policy req resolved tt), frame0) /\
+  (forall o, (forall q, ~ affirmed o q) ->
+     fst (decide_rel ctx_hash (Some o) oblig strict policy req resolved) =
+     fst (guard_eval unit (relh_pure (fun _ => false)) oblig strict policy req resolved tt)).
+Proof. split; [apply no_checker_decision|intros o; apply never_affirming_decision]. Qed.
+
+Lemma memo_eq_unmemoised ctx_hash o oblig strict policy req resolved :
+  respects_key ctx_hash o ->
+  fst (decide_rel ctx_hash (Some o) oblig strict policy req resolved) =
+    fst (guard_eval (list rel_query) (relh_direct (Some o)) oblig strict policy req resolved []) /\
+  fst (decide_rel ctx_hash (Some o) oblig strict policy req resolved) =
+    fst (guard_eval frame (relh_frame ctx_hash false (Some o)) oblig strict policy req resolved frame0).
+Proof. intros. split; [apply memo_eq_direct|apply memo_off_same]; assumption. Qed.
+
+Lemma fresh_per_decision_both ctx_hash oblig strict policy resolved steps steps' k :
+  nth_error (run_seq ctx_hash oblig strict policy resolved steps) k =
+    option_map (fun step => let r := decide_rel ctx_hash (fst step) oblig strict policy (snd step) resolved in
+                            (fst r, f_log (snd r)))
+               (nth_error steps k) /\
+  (nth_error steps k = nth_error steps' k ->
+   nth_error (run_seq ctx_hash oblig strict policy resolved steps) k =
+   nth_error (run_seq ctx_hash oblig strict policy resolved steps') k).
+Proof. split; [apply run_seq_nth|apply fresh_per_decision]. Qed.
